@@ -46,6 +46,7 @@ var families = []family{
 	{name: "cont", srcEnc: []string{"none", "rc4", "aes"}},
 	{name: "calls", srcEnc: []string{"none", "rc4", "aes"}},
 	{name: "stream", srcEnc: []string{"none"}},
+	{name: "streamcalls", srcEnc: []string{"none", "rc4", "aes"}},
 	{name: "parms", srcEnc: []string{"none", "rc4", "aes"}},
 	{name: "streamenc", srcEnc: []string{"rc4", "aes"}},
 }
@@ -189,6 +190,8 @@ func jobsFor(ctx *core.Ctx, fam family, idx int, gc genCase) []Job {
 		job.Dst = p.dst
 		job.Dst.Human = (base+k)%4 == 1
 		job.Dst.Seek = (base+k)%2 == 0
+		job.Dst.Open = (base+k)%3 == 1 || (fam.name == "streamcalls" && k == 0)
+		job.Dst.LatePut = (base/2+k)%2 == 1
 		jobs = append(jobs, job)
 	}
 	return jobs
